@@ -208,7 +208,7 @@ def run(chk):
             want = len([l for l in ref[1] if l.startswith("D ")])
             pr.stdin.write(stream); pr.stdin.flush()
             out = b""; t0 = time.time()
-            while out.count(b"\nD ") < want and time.time() - t0 < 5:
+            while out.count(b"\nD ") < want and time.time() - t0 < 30:      # returns as soon as the verdicts are there; the bound only matters when they never come
                 r, _, _ = select.select([pr.stdout], [], [], 0.25)
                 if r:
                     chunk = os.read(pr.stdout.fileno(), 65536)
@@ -219,7 +219,7 @@ def run(chk):
         finally:
             shutil.rmtree(d, ignore_errors=True)
         if seen < want:
-            chk.violation("a burst of %d bytes of complete lines is not processed until more input (or end of input) arrives: %d of %d verdicts after 5 s with the input left open" % (len(stream), seen, want),
+            chk.violation("a burst of %d bytes of complete lines is not processed until more input (or end of input) arrives: %d of %d verdicts after 30 s with the input left open" % (len(stream), seen, want),
                           "stream %r" % (stream,), "chunking:burst-hang")
         else:
             chk.cov["traces_validated_against_impl"] += 1
